@@ -60,8 +60,12 @@ All(sent, P(_)) == \A i \in 1..Len(sent) : P(sent[i])
 \* connections known to the machine controller in state st
 KnownConns == IF st.discovered THEN { c \in SeqSet(Tr.up) : IsEthChip(c, Tr.rx, Tr.ry) /\ InsideMachine(c[1], c[2], Tr.w, Tr.h) }
               ELSE {}
-ConnOk(d) == IF InsideMachine(DX(d), DY(d), Tr.w, Tr.h) /\ BoardDetermined(DX(d), DY(d), Tr.w, Tr.h, Tr.rx, Tr.ry)
-             THEN DConn(d) = ExpectedConn(KnownConns, DX(d), DY(d), Tr.w, Tr.h, Tr.rx, Tr.ry)
+\* "travels over the connection of the board that holds the target WHEN ONE IS KNOWN": only then is the connection
+\* pinned; otherwise any connection the controller has will do (rig uses its first one, another choice - say the
+\* nearest known board - is as good)
+ConnOk(d) == IF /\ InsideMachine(DX(d), DY(d), Tr.w, Tr.h) /\ BoardDetermined(DX(d), DY(d), Tr.w, Tr.h, Tr.rx, Tr.ry)
+                /\ LocalEth(DX(d), DY(d), Tr.w, Tr.h, Tr.rx, Tr.ry) \in KnownConns
+             THEN DConn(d) = LocalEth(DX(d), DY(d), Tr.w, Tr.h, Tr.rx, Tr.ry)
              ELSE DConn(d) = InitialConn \/ DConn(d) \in KnownConns
 
 ----------------------------------------------------------------------------
